@@ -8,10 +8,11 @@ import (
 	"testing"
 
 	"github.com/gotid/god/internal/verifdrv"
+	"github.com/gotid/god/internal/verifdrv/c05shape"
 )
 
 type verifCase struct {
-	Shape verifdrv.Shape `json:"shape"`
+	Shape c05shape.Shape `json:"shape"`
 	JSON  string         `json:"json"`
 	YAML  string         `json:"yaml"`
 }
@@ -28,9 +29,9 @@ func TestVerifDriver(t *testing.T) {
 		if panicked, pv := verifdrv.Catch(func() { typ = c.Shape.Build() }); panicked {
 			return map[string]any{"error": "shape: " + pv}
 		}
-		out := map[string]any{"j": verifdrv.RunInto(typ, func(v any) error { return UnmarshalJsonBytes([]byte(c.JSON), v) })}
+		out := map[string]any{"j": c05shape.RunInto(typ, func(v any) error { return UnmarshalJsonBytes([]byte(c.JSON), v) })}
 		if c.YAML != "" {
-			out["y"] = verifdrv.RunInto(typ, func(v any) error { return UnmarshalYamlBytes([]byte(c.YAML), v) })
+			out["y"] = c05shape.RunInto(typ, func(v any) error { return UnmarshalYamlBytes([]byte(c.YAML), v) })
 		}
 		return out
 	})
